@@ -295,7 +295,7 @@ def C01(ctx):
     import copydecl
     dcs = ctx.export('FamilyD(p)', extends='WireCopyDecl', caseop='CaseD', pre_sample=60 if ctx.quick else None)
     copydecl.run(ctx, dcs)
-    ecs = ctx.export('FamilyE(p, 1)', extends='WireValueExpr', caseop='CaseE')
+    ecs = [c for c in ctx.export('FamilyE(p, 1)', extends='WireValueExpr', caseop='CaseE') if verdict(c) != 'no']   # what must be refused is C13's matter
     ctx.run(ecs, nontrivial=nt, runtime=False, build=True)
 
 
